@@ -67,7 +67,7 @@ def gen_cases(tier, seed):
                                 rnd.randint(20, 40 if method == "majority" else hi),
                                 rnd.randint(5, 40 if method == "majority" else hi)],
                       "dtype": rnd.choice(["uint8", "uint16", "float32", "int16"]) if not seg
-                      else rnd.choice(["uint8", "uint16", "uint32"]),
+                      else rnd.choice(["uint8", "uint16", "uint32", "uint64"]),
                       "voxel": rnd.choice([[1, 1, 1], [1, 1, 1], [1, 1, 2], [0.5, 0.5, 1.5],
                                            [2, 1, 1]]),
                       "method": method,
@@ -222,7 +222,8 @@ def run_case(case):
             obs["volumes_with_gzip_magic_at_chunk_corners"] = 1
         aff = np.diag(case["voxel"] + [1.0])
         fn = os.path.join(top, "v.nii" + (".gz" if case["vseed"] % 2 else ""))
-        img = nibabel.Nifti1Image(vol, aff)
+        img = nibabel.Nifti1Image(vol, aff, dtype=vol.dtype) if dt.itemsize == 8 \
+            else nibabel.Nifti1Image(vol, aff)
         scal = case.get("scal") if (dt.kind in "iu" and not case["seg"]) else None
         if scal:
             img.header.set_slope_inter(*scal)
@@ -231,7 +232,7 @@ def run_case(case):
         tyenc = []
         if case["seg"] and case["type_opt"]:
             tyenc += ["--type", "segmentation"]
-        if case["cseg"] and dt.name in ("uint32",):
+        if case["cseg"] and dt.name in ("uint32", "uint64"):
             tyenc += ["--encoding", "compressed_segmentation"]
         store = (["--flat"] if case["flat"] else []) + (["--no-gzip"] if case["nogzip"] else [])
         # the first pass of every data-writing step stores with the fastest gzip level; a
@@ -270,7 +271,7 @@ def run_case(case):
             run("volume_to_precomputed", *store1, *scaling, fn, B)
         elif route == "slices":
             # RAS-oriented stack of PNG/TIFF slices, uint8/uint16 only
-            if dt.kind == "f" or dt == np.int16:
+            if dt.kind == "f" or dt == np.int16 or dt.itemsize == 8:
                 vol = g.integers(0, 250, size=shape).astype(np.uint8)
                 dt = vol.dtype
             code = case["orientation"]
@@ -302,7 +303,7 @@ def run_case(case):
             run("slices_to_precomputed", *store1, "--input-orientation", code, sd, B)
         else:   # sharded step-by-step route (isotropic voxels -> cubic chunks)
             aff = np.diag([1., 1., 1., 1.])
-            nibabel.save(nibabel.Nifti1Image(vol, aff), fn)
+            nibabel.save(nibabel.Nifti1Image(vol, aff, dtype=vol.dtype), fn)
             run("volume_to_precomputed", "--generate-info", "--sharding", case["sharding"],
                 *scaling, fn, B, expect_ok=False)
             run("generate_scales_info", *tyenc, os.path.join(B, "info_fullres.json"), B)
@@ -427,7 +428,8 @@ def run_case(case):
             shape2 = [max(8, s // 2 + 3) for s in shape]
             vol2 = vol[:shape2[0], :shape2[1], :shape2[2]]
             fn2 = os.path.join(top, "v2.nii")
-            img2 = nibabel.Nifti1Image(np.ascontiguousarray(vol2), aff)
+            img2 = nibabel.Nifti1Image(np.ascontiguousarray(vol2), aff, dtype=vol2.dtype) \
+                if dt.itemsize == 8 else nibabel.Nifti1Image(np.ascontiguousarray(vol2), aff)
             if scal:
                 img2.header.set_slope_inter(*scal)
             nibabel.save(img2, fn2)
